@@ -550,8 +550,12 @@ with tempfile.TemporaryDirectory() as d:
     srv, th = start('tftp')                      # a RELATIVE base directory, as `-d tftp` on the command line gives
     res = {}
     def fetch(name):
-        c = Client(srv.server_address, 1.0); c.rrq(name); c.run()
-        r = dict(finished=c.finished, data=c.buf.decode('latin-1'), error=(c.error or b'')[2:4].hex()); c.close(); return r
+        for attempt in range(2):                 # a second try only when nothing at all came back (loaded machine)
+            c = Client(srv.server_address, 3.0); c.rrq(name); c.run()
+            r = dict(finished=c.finished, data=c.buf.decode('latin-1'), error=(c.error or b'')[2:4].hex()); c.close()
+            if r['finished'] or r['error'] or r['data']:
+                break
+        return r
     res['before'] = fetch(b'file.txt')
     os.chdir(os.path.join(d, 'b'))               # the process changes its working directory later
     res['after'] = fetch(b'file.txt')
